@@ -94,3 +94,9 @@ claim(
     "Seeded random exploration of functions with random tag sets (string and object form, permuted and repeated members) on parameters and annotated assignments x every tag of a 4-letter alphabet x {$x:@T, *:@T, v:@T, unrestricted $x}, plus return-annotation tags on a function family and an exhaustive check of TagSet equality/matching over all subsets, permutations and repetitions. Held-on-observed.",
     "A binding carries T iff the annotation at that binding site contains T; return tags in object form only.",
 )
+claim(
+    "C16",
+    "differential execution monitor against the hooked twin with a supplying hook, plus an ABSENT-marker monitor on Interactor.interact and a repr scan of results, yields, events and the side-effect log",
+    "Seeded random exploration of functions with declared-only variables (with/without tags) and conditionally used undefined globals x {tooled, $x, specific probes, meta-only, none} x supplied subsets via tweaking / rewriting / overridable probes: supplied => equal to the substituted twin; instrumented and unsupplied => PteraNameError at the declaration identifying variable, function, annotation and provenance; undefined names used => NameError family, unused => equal to plain; the marker never reaches user code. Held-on-observed apart from one listed known finding.",
+    "Uninstrumented declarations may fail at first use (Python's UnboundLocalError); configurations that instrument an undefined global are routed to the known-finding stream (undefined-global-fails-at-entry).",
+)
